@@ -441,6 +441,11 @@ static std::vector<Config> configsC07(int tier) {
 	// 2 waiters || enqueuer
 	std::vector<Prog> w2 = {{O_WAIT_PROCESS}, {O_WAIT_DRAIN}};
 	addConfigs(v, {{{O_WAIT_PROCESS}}, w2, {{O_ENQ, O_ENQ}, {O_DQN_ENQ, O_ENQ}, {O_DQN2}, {O_DQN_ENQ}}});
+	// 1 waiter || a thread that enqueues and then consumes selectively: processIf/processUntil put the declined events back
+	// WITHOUT notifying, which is only safe because emptyQueue() stays false for the whole call
+	std::vector<Prog> putback = {{O_ENQ, O_ENQ, O_PROCESS_IF_ODD}, {O_ENQ, O_ENQ, O_PROCESS_UNTIL_EVEN}};
+	addConfigs(v, {waiter, putback});
+	addConfigs(v, {{{O_WAIT_PROCESS}}, {{O_ENQ, O_ENQ}}, {{O_PROCESS_IF_ODD}, {O_PROCESS_UNTIL_EVEN}}});
 	if(tier >= 1) {
 		// 2 waiters || 2 enqueuers (4 threads)
 		addConfigs(v, {{{O_WAIT_PROCESS}}, {{O_WAIT_PROCESS}, {O_WAITFOR_PROCESS}}, {{O_ENQ}, {O_DQN_ENQ}}, {{O_ENQ}, {O_DQN_ENQ}}});
